@@ -19,13 +19,8 @@ class Operation:
         self.start_timer = []        # Call nodes
         self.stop_timer = []
         self.main_try = None
+        self.method_name_var = None  # the local that carries the name
         for n in walk_no_nested(func.node):
-            if isinstance(n, ast.Assign) and len(n.targets) == 1 and \
-                    isinstance(n.targets[0], ast.Name) and \
-                    n.targets[0].id == 'method_name' and \
-                    const_str(n.value) is not None:
-                self.method_name = const_str(n.value)
-                self.method_name_node = n
             if isinstance(n, ast.Call):
                 d = dotted(n.func)
                 if d in ('self.' + e for e in ENVELOPES):
@@ -34,6 +29,23 @@ class Operation:
                     self.start_timer.append(n)
                 elif d is not None and d.endswith('.stop_timer'):
                     self.stop_timer.append(n)
+        # the operation-name variable is identified by its role: the name
+        # passed first to the envelope call (and to start_timer), whose only
+        # definition is a string literal
+        cands = []
+        for c in self.envelope_calls + self.start_timer:
+            if c.args and isinstance(c.args[0], ast.Name):
+                cands.append(c.args[0].id)
+        for var in cands:
+            defs = [n for n in walk_no_nested(func.node)
+                    if isinstance(n, ast.Assign) and len(n.targets) == 1 and
+                    isinstance(n.targets[0], ast.Name) and
+                    n.targets[0].id == var]
+            if len(defs) == 1 and const_str(defs[0].value) is not None:
+                self.method_name_var = var
+                self.method_name = const_str(defs[0].value)
+                self.method_name_node = defs[0]
+                break
         for s in func.body:
             if isinstance(s, ast.Try):
                 self.main_try = s
